@@ -599,10 +599,6 @@ def _selected(sc, name):
 
 def _mesh_domain_expected(sc, res, ref, rt, at_):
     """True | False | None for a mesh pair; None also when the effective tolerance is not far below the spacing"""
-    if not res.get("topo_same", True):
-        return False
-    if not res.get("storage_same", True) and sc["flags"].get("dis_reorder"):
-        return False
     pts = ref["lm"]["points"]
     mx = max([abs(c) for p in pts for c in p] + [0.0])
     rel = (py_tol_for(rt, "domain") or ("num", 1e-8))[1]
@@ -610,7 +606,13 @@ def _mesh_domain_expected(sc, res, ref, rt, at_):
     ab = mx * 1e-8 if a is None else (a[1] if a[0] == "num" else a[1] * mx)
     sep = float(Fraction(min_sep_units(pts), 1 << 1074))
     if 16.0 * max(rel * mx, ab) > sep:
+        # the (possibly leaked global) tolerance is not far below the point spacing: distinct points may compare
+        # equal, nothing can be said without the mesh model
         return None
+    if not res.get("topo_same", True):
+        return False
+    if not res.get("storage_same", True) and sc["flags"].get("dis_reorder"):
+        return False
     mv = res.get("moved")
     if mv == "huge":
         return False
@@ -685,11 +687,17 @@ def py_eval(sc) -> dict:
     if len_fail and not sc["flags"].get("force_seq"):
         return {"exit": "nz", "f5": True}
     doms = [e["domain"] for e in es]
-    tf = [e["testfail"] for e, d in zip(es, doms) if d is not False]
-    any_fail = True if any(t is True for t in tf) else (None if (None in tf or None in doms) else False)
+    # a failing test case is reported only for a step whose domains are equal
+    if any(d is True and e["testfail"] is True for e, d in zip(es, doms)):
+        any_fail = True
+    elif any((d is None and e["testfail"] is not False) or (d is True and e["testfail"] is None)
+             for e, d in zip(es, doms)):
+        any_fail = None
+    else:
+        any_fail = False
     own_fail = True if (len_fail or any(d is False for d in doms)) else (None if None in doms else False)
-    if own_fail is True or any_fail is True:
-        ex = "nz"
+    if own_fail is True or any_fail is True or any(e["testfail"] is True and d is None for e, d in zip(es, doms)):
+        ex = "nz"        # (a step that fails a test or else has unequal domains fails either way)
     elif own_fail is None or any_fail is None:
         ex = None
     else:
